@@ -284,7 +284,10 @@ func c11Gen(t *rapid.T) c11Case {
 		return c11Case{X: lx, Limit: uint32(L), Via: "detect"}
 	}
 	var x []byte
-	switch rapid.IntRange(0, 3).Draw(t, "k") {
+	switch rapid.IntRange(0, 4).Draw(t, "k") {
+	case 4: // text that opens with a literal of the code under test (signatures, labels, keywords)
+		x = []byte(rapid.SampledFrom(vfDictText()).Draw(t, "dicttok"))
+		x = append(x, rapid.SampledFrom([]string{"", " ", "\n", " caf\u00e9", " caf\xe9", "-", "AAAA", "\x93quoted\x94"}).Draw(t, "dicttail")...)
 	case 0: // real text, 0-2 bytes replaced
 		x = []byte(rapid.SampledFrom(c11Texts).Draw(t, "text"))
 		for i, n := 0, rapid.IntRange(0, 2).Draw(t, "nrep"); i < n; i++ {
@@ -293,7 +296,7 @@ func c11Gen(t *rapid.T) c11Case {
 	case 1: // pieces
 		n := rapid.IntRange(1, 8).Draw(t, "n")
 		for i := 0; i < n; i++ {
-			x = append(x, rapid.SampledFrom([]string{"a", "text ", "\n", "\xc3\xa9", "\xe2\x82\xac", "\xf0\x9f\x98\x80", "\xe9", "\x85", "\x93", "\xa0", "\xff", "\xc3", "\xe2\x82", "\xf0\x9f\x98", "\x1b", "\x7f", "\xed\xa0\x80", "\xc0\x80", "\xef\xbb\xbf", "\xff\xfe", "\xfe\xff",
+			x = append(x, rapid.SampledFrom([]string{"a", "text ", "\n", "\xc3\xa9", "\xe2\x82\xac", "\xf0\x9f\x98\x80", "\xe9", "\x85", "\x93", "\xa0", "\xff", "\xc3", "\xe2\x82", "\xf0\x9f\x98", "\x1b", "\x7f", "\xed\xa0\x80", "\xc0\x80", "\xed\xb0\x80", "\xed\xaf\xbf", "\xed\xbf\xbf", "\xed\xa0\x80\xed\xb0\x80", "\xed\xa1\x8c\xed\xbe\xb4", "\xe0\x80\xaf", "\xf0\x80\x80\xaf", "\xf4\x90\x80\x80", "\xf8\x88\x80\x80\x80", "\xc1\xbf", "\xed\x9f\xbf", "\xef\xbb\xbf", "\xff\xfe", "\xfe\xff",
 				"\ufffd", "\ufffe", "\uffff", "\u0080", "\u07ff", "\u0800", "\ud7ff", "\ue000", "\U00010000", "\U0010ffff", "\xf4\x8f\xbf", "\xef\xbf"}).Draw(t, "pc")...)
 		}
 	case 2: // byte-class string, longer than the exhaustive scope
